@@ -27,7 +27,8 @@ TIERS = {
     "thorough": {"runs": 200000, "budget": 1200, "selftest": 2000, "shrink_budget": 1000},
 }
 RULE = (
-    "Each run draws 2-12 operations over up to 3 accumulators and 5 paths (.npy, two .npz, two raw binary): "
+    "Each run draws 2-12 operations over up to 3 accumulators and 8 paths (.npy, .npz, raw binary; some below "
+    "directories whose names contain '.npz' / '.npy'): "
     "accumulate (float32/float64, any sign and scale, vectors or matrices), save (key / compress / overwrite "
     "varied), load-and-apply, save-with-no-statistics, and pre-seeding of a path with prior durable content "
     "(numpy.savez / savez_compressed archives with unrelated entries, numpy.save files, raw bytes). "
@@ -53,12 +54,13 @@ ASSUMPTIONS = [
 PROBES = [
     "second_save_same_npz", "save_accumulate_save_load", "negative_sum_saved", "keyless_after_keyless",
     "overwrite_false_existing", "overwrite_true_existing", "preseeded_archive", "compressed", "raw_reload",
-    "npy_reload", "npz_reload", "save_empty", "cross_accumulator_path",
+    "npy_reload", "npz_reload", "save_empty", "cross_accumulator_path", "suffix_text_in_directory",
 ]
 FAULT_KINDS = ["prior_content_numpy_archive", "prior_content_compressed_archive", "prior_content_own_save",
                "prior_content_npy", "prior_content_raw"]
 
-PATHS = ["s0.npy", "s1.npz", "s2.npz", "s3.bin", "s4stats"]
+# targets, some below directories whose names contain the suffix text (the path is data too)
+PATHS = ["s0.npy", "s1.npz", "s2.npz", "s3.bin", "s4stats", "exp.npz.d/s5.npz", "feats.npy/s6.npy", "run.1/raw.npz.stats"]
 
 
 def _kind(p):
@@ -173,6 +175,9 @@ def execute(scn, keep_trace=False):
 
 
 def _run(scn, d, base, res, tr):
+    for rel in PATHS:
+        if "/" in rel:
+            os.makedirs(os.path.join(base, os.path.dirname(rel)), exist_ok=True)
     accs = []
     datas = []
     for a in scn["accs"]:
@@ -286,6 +291,8 @@ def _run(scn, d, base, res, tr):
                 fail("SAVE_EMPTY", "save with no accumulated statistics did not raise", phase="save_empty")
                 return
             fp, _ = _fingerprint(accs[a], d)
+            if "/" in PATHS[p]:
+                res.probe("suffix_text_in_directory")
             kw = {}
             key = op.get("key")
             if pk == "npz":
